@@ -93,6 +93,21 @@ def h_tt_get(ctx, ns, rho, where):
     # the fill value may be given as an integer: in-box values are unaffected by it
     yi = teneva.func_get(np.array([x, x]), A, a, b, z=-1)
     ctx.claim('integer_fill_value', ctx.eq(yi[0], f(x)) if where == 'inside' else ctx.eq(yi[0], -1))
+    # default box [-1, 1] (a, b left out) with the fill flag given explicitly
+    x1 = vec(ctx, 'u', d)
+    if where == 'outside':
+        ctx.assume(ctx.gt(x1[0], 2))
+        yd = teneva.func_get(np.array([x1, x1]), A, z=z, skip_out=True)
+        ctx.claim('default_box_outside_gets_fill_value', ctx.all_([ctx.eq(yd[0], z), ctx.eq(yd[1], z)]))
+        yb1 = teneva.func_get(np.array([x1, x1]), A, a=None, b=1., z=z, skip_out=True)
+        ctx.claim('half_default_box_outside_gets_fill_value', ctx.eq(yb1[0], z))
+    else:
+        for k in range(d):
+            ctx.assume(ctx.ge(x1[k], -1))
+            ctx.assume(ctx.le(x1[k], 1))
+        y_def = teneva.func_get(np.array([x1, x1]), A, z=z, skip_out=True)
+        y_exp = teneva.func_get(np.array([x1, x1]), A, -1., 1., z=z)
+        ctx.claim('default_box_is_minus_one_one', ctx.eq(y_def[0], y_exp[0]))
     ctx.canary('canary', ctx.eq(y, f(x) + 1))
 
 
